@@ -3,16 +3,19 @@
 CHECKS = {
     "C25": dict(
         category="fault_enumeration",
-        text="TLC enumerates application-level histories (opens, puts/deletes, database drops, flushes over 2 databases) from "
-             "FlushScen.tla; each history is run on the real flushable.SyncedPool and flaggedproducer over a disk-image backend once "
-             "without a crash and once per durable operation with the process stopped at that operation (database creation, mark put, "
-             "write batch/put/delete, drop); a fresh pool/producer over fresh stores built from the surviving image calls Initialize "
+        text="TLC explores the complete graph of abstract application states of FlushScen.tla (2 databases: open/queued/closed, on disk, "
+             "durable contents, overlay incl. large values that split one flush into several write batches, dirty flag, contents at "
+             "the last flush) and emits every transition with the path to its pre-state; every class of pre-state is run (seeded "
+             "sampling only inside a class). Each history is run on the real flushable.SyncedPool and flaggedproducer over a "
+             "disk-image backend once without a crash and once per durable operation of its last call with the process stopped at that "
+             "operation (database creation, mark put, write batch/put/delete, drop); a fresh pool/producer over fresh stores built from the surviving image calls Initialize "
              "over the surviving names; every run is a trace that TLC validates against SyncedPoolTrace.tla / FlaggedTrace.tla, which "
              "require the recorded surviving state to be the specification's durable state and decide whether the verdict is allowed "
              "and crash consistent. The two flush protocols (SyncedPool.tla, Flagged.tla: durable micro-steps with Crash enabled in "
              "every state) are model-checked for CrashConsistent, and the pre-repair orders are shown to violate it in the model.",
-        note="Exhaustive over the bounded history space of the quick configuration only up to seeded sampling (the number of enumerated and "
-             "sampled histories is in the evidence); every prefix of every run's durable-operation sequence is a crash point. A write batch "
+        note="All classes of abstract pre-state are run in every tier; inside a class the transitions are sampled (numbers in the evidence). "
+             "Crash points are the durable operations of the last call of a history; those of earlier calls belong to the histories "
+             "ending there (same abstract state). A write batch "
              "is taken as atomic, a crash never tears a single operation; the backend is a memory image, not LevelDB/Pebble. Histories "
              "start from empty disks and contain one crash.",
         technique="TLA+ protocol specs + TLC model checking, TLC scenario enumeration, crash injection at every durable operation of the "
@@ -37,13 +40,16 @@ CHECKS = {
     ),
     "C27": dict(
         category="model_checking",
-        text="TLC explores the complete tree of open/close/drop call sequences over the names {a,b} up to 6 (quick) / 7 (thorough) calls "
+        text="TLC explores the complete tree of open/close/drop call sequences over the names {a,b} up to 5 (quick) / 7 (thorough) calls "
              "of CachedProducer.tla, checks the clauses of C27 on the specification (same store while open, underlying close exactly once "
              "at the last close, extra close is an error, underlying drop at most once per open) and every transition is replayed on "
              "cachedproducer.Wrap and cachedproducer.WrapAll over an underlying producer that counts the OpenDB/Close/Drop calls "
-             "reaching it; random walks run on one long-lived producer.",
-        note="Exhaustive within the bound. Close/Drop are issued on the store most recently returned for the name; concurrent use is C28's "
-             "business. The reference count is private and observed through the underlying Close counter and the error result.",
+             "reaching it and fails opens on demand (OpenFail); random walks run on one long-lived producer. Concurrent mode: for every call "
+             "history up to 2 (quick) / 3 (thorough) calls and every ordered pair of possible calls the second is issued while the first is "
+             "held inside its underlying OpenDB/Close/Drop; the recorded public and underlying calls are validated by TLC against "
+             "CachedConcTrace.tla (underlying drops <= opens, underlying closes <= underlying opens <= OpenDB calls).",
+        note="Exhaustive within the bound. Close/Drop are issued on the store most recently returned for the name; the concurrent mode checks "
+             "only the order-independent counting clauses with one held underlying call (full linearizability is C28's business). The reference count is private and observed through the underlying Close counter and the error result.",
         technique="TLA+ spec + TLC exhaustive call-sequence tree, edge replay into both caching producers",
         design_ref="DESIGN.md section 5 (C27), section 3 pattern R",
     ),
